@@ -231,7 +231,7 @@ def macro_shape(body):
 
 
 def emit(repo, spec, H):
-    out = ["From Coq Require Import String.", "Open Scope string_scope.",
+    out = ["From Coq Require Import String.", "Local Open Scope string_scope.",
            "Inductive cls := Checked | Late | Returned | OnFailPath | Dropped.", ""]
     f, names = spec["hi_macros"]
     d = H.defines(repo, f)
@@ -240,7 +240,7 @@ def emit(repo, spec, H):
         if n not in d or d[n][0] is None:
             raise ValueError("%s: wrapper macro %s not found" % (f, n))
         fnm, test = macro_shape(d[n][1])
-        out.append("(* %s: #define %s%s %s *)" % (f, n, d[n][0], d[n][1].replace("(*", "( *").replace("*)", "* )")))
+        out.append("(* %s: #define %s%s %s *)" % (f, n, d[n][0], d[n][1].replace("(*", "( *").replace("*)", "* )").replace('"', "'")))
         rows.append('("%s", ("%s", "%s"))' % (n, fnm, test))
     out.append("Definition HI_macros : list (string * (string * string)) :=\n  [%s]." % ";\n   ".join(rows))
     out.append("")
@@ -250,7 +250,7 @@ def emit(repo, spec, H):
         sites = scan_function(H, repo, f, fn, callees)
         out.append("(* %s: %s *)" % (f, fn))
         for name, cls, ctx in sites:
-            out.append("(*   %-10s %s   <<%s>> *)" % (cls, name, ctx.replace("(*", "( *").replace("*)", "* )")))
+            out.append("(*   %-10s %s   <<%s>> *)" % (cls, name, ctx.replace("(*", "( *").replace("*)", "* )").replace('"', "'")))
         out.append("Definition sites_%s : list (string * cls) :=\n  [%s]." % (
             fn, "; ".join('("%s", %s)' % (n, c) for n, c, _ in sites)))
         allf.append(fn)
